@@ -2,7 +2,7 @@
    pointwise specification whenever it returns without a defect flag, by induction on the recursion
    fuel (all functions are mutually recursive through [run]). *)
 From Coq Require Import QArith Lia Lqa Btauto.
-From SE Require Import C27.SetSpec C27.SetOrder C27.SetNum C27.SetCont C27.SetIvl C27.SetFin.
+From SE Require Import C27.SetSpec C27.SetOrder C27.SetNum C27.SetCont C27.SetIvl C27.SetFin C27.SetInt.
 Local Open Scope m_scope.
 
 Definition simple (s : sv) : bool :=
@@ -641,5 +641,53 @@ Section WithRec.
       { intros a y Hin Hy. apply rec_compl in Hy; auto. eapply forallb_In; eauto. }
       apply rec_funion in Hk0; auto. destruct Hk0 as [Hw Hs]. split; [exact Hw|].
       intro p. rewrite Hs, I2. simpl. rewrite orb_false_r. apply existsb_and_r.
+  Qed.
+
+  (* ---------------------------------------------------------------- Interval *)
+  Lemma ivl_union_ok : forall s e lo ro o r, wf_set (SInterval s e lo ro) = true -> wf_set o = true ->
+      ivl_union rec s e lo ro o = (Ok r, []) ->
+      wf_set r = true /\ forall p, In_set p r = In_set p (SInterval s e lo ro) || In_set p o.
+  Proof.
+    intros s e lo ro o r Hi Ho H. unfold ivl_union in H.
+    destruct o; try (by_rec_comm rec_union; fail).
+    - apply ivl_union_ivl_ok in H; auto. destruct H as [Hs Hw]. split; [exact Hw|exact Hs].
+    - apply mk_union2_ok in H. destruct H as [Hs Hw]. split; [apply Hw; assumption|exact Hs].
+    - apply mk_union2_ok in H. destruct H as [Hs Hw]. split; [apply Hw; assumption|exact Hs].
+  Qed.
+
+  Lemma ivl_inter_ok : forall s e lo ro o r, wf_set (SInterval s e lo ro) = true -> wf_set o = true ->
+      ivl_inter rec s e lo ro o = (Ok r, []) ->
+      wf_set r = true /\ forall p, In_set p r = In_set p (SInterval s e lo ro) && In_set p o.
+  Proof.
+    intros s e lo ro o r Hi Ho H. unfold ivl_inter in H.
+    destruct o; try (by_rec_comm rec_inter; fail).
+    - apply ivl_inter_numset_ok in H; auto.
+    - apply ivl_inter_numset_ok in H; auto.
+    - apply ivl_inter_numset_ok in H; auto.
+    - minv. split; [apply ivl_inter_ivl_wf; assumption|]. intro p. apply ivl_inter_ivl_In; assumption.
+    - apply mk_inter2_ok in H. destruct H as [Hs Hw]. split; [apply Hw; assumption|exact Hs].
+    - apply mk_inter2_ok in H. destruct H as [Hs Hw]. split; [apply Hw; assumption|exact Hs].
+  Qed.
+
+  Lemma ivl_compl_ok : forall s e lo ro o r, wf_set (SInterval s e lo ro) = true -> wf_set o = true ->
+      ivl_compl rec s e lo ro o = (Ok r, []) ->
+      wf_set r = true /\ forall p, In_set p r = In_set p o && negb (In_set p (SInterval s e lo ro)).
+  Proof.
+    intros s e lo ro o r Hi Ho H. unfold ivl_compl in H.
+    destruct o; try (apply rec_helper in H; auto; fail).
+    rename s0 into os, e0 into oe, lo0 into olo, ro0 into oro.
+    destruct (is_empty (ivl_inter_ivl s e lo ro os oe olo oro)) eqn:E.
+    - minv. split; [assumption|]. intro p.
+      pose proof (ivl_inter_ivl_In s e lo ro os oe olo oro p Hi Ho) as Hx.
+      destruct (ivl_inter_ivl s e lo ro os oe olo oro); try discriminate E. simpl in Hx. simpl.
+      destruct (in_interval os oe olo oro p), (in_interval s e lo ro p); try reflexivity; discriminate.
+    - minv. apply ss_make_ok in Hm.
+      pose proof Hi as Hi'. pose proof Ho as Ho'.
+      apply wf_interval_inv in Hi'. destruct Hi' as [Hs [He _]].
+      apply wf_interval_inv in Ho'. destruct Ho' as [Hos [Hoe _]].
+      apply rec_funion in Hk.
+      + destruct Hk as [Hw Hsx]. split; [exact Hw|]. intro p. rewrite Hsx.
+        rewrite (existsb_same_elems (In_set p) x _ Hm). apply ivl_compl_core; assumption.
+      + apply (forallb_wf_same x _ Hm). apply ivl_compl_pieces_wf; assumption.
   Qed.
 End WithRec.
